@@ -40,6 +40,7 @@ def main():
         os._exit(2)
     import hypothesis
     from hypothesis import given, settings, HealthCheck, Verbosity
+    _patch_bytestring_provider()
     from pv import core
     from pv.runner import _load, _known_preds
     mod = _load(prop)
@@ -87,6 +88,26 @@ def main():
     atheris.Fuzz()
     _dump(out, result(True))
     os._exit(0)
+
+
+def _patch_bytestring_provider():
+    """Hypothesis 6.168's BytestringProvider.draw_integer draws `bit_length(max - min)` bits and waits for a value inside [min, max] WITHOUT
+    adding min, so a range that does not start near 0 (integers(1000, 1500), the swaps of permutations(), ordinals of dates) never
+    decodes and every byte string is rejected. Replaced by min + (bits mod (max - min + 1)): total, no rejection loop."""
+    from hypothesis.internal.conjecture.providers import BytestringProvider
+
+    def draw_integer(self, min_value=None, max_value=None, *, weights=None, shrink_towards=0):
+        if min_value is None and max_value is None:
+            min_value, max_value = -(2 ** 127), 2 ** 127 - 1
+        elif min_value is None:
+            min_value = max_value - 2 ** 64
+        elif max_value is None:
+            max_value = min_value + 2 ** 64
+        if min_value == max_value:
+            return min_value
+        span = max_value - min_value
+        return min_value + self._draw_bits(span.bit_length()) % (span + 1)
+    BytestringProvider.draw_integer = draw_integer
 
 
 def _dump(out, doc):
